@@ -3480,6 +3480,8 @@ def vdot(a: Array, b: Array) -> ArrayOrScalar:
         from pytato.utils import are_shape_components_equal
         if not are_shape_components_equal((a if a.ndim else b).shape[0], 1):
             raise ValueError("vdot: operands must have the same size")
+        # (the result has no axes)
+        a, b = (a[0], b) if a.ndim else (a, b[0])
 
     return pt.dot(pt.conj(a), b)
 
